@@ -1,4 +1,940 @@
+"""C18 pipeline: public headers are usable by client programs that link the library.
+
+The "execution" monitored here is compile -> link -> load -> run of generated client
+programs against libcstl.a / libcstl.so as produced by the project's own `make build`
+(run in a scratch copy of the working tree).  See DESIGN.md section 3, entry C18.
+
+Entry points used by ./check:
+    run_pipeline(pid, tier, seed, repo, broot) -> result dict (harness-result shaped)
+    replay(rp, repo, broot)                    -> 1 if the stored configuration still fails
+
+What is generated (everything derived from the CURRENT tree under `repo`):
+  * bare TUs (`#include "cstl/x.h"` only) for every header alone and all headers together,
+    compiled with `gcc -aux-info`: the compiler's own list of declared functions;
+  * client TUs for every header alone / every ordered pair / all headers in several orders
+    (thorough: + a seeded sample of ordered triples, -O0 and -O2, both TU link orders), as one
+    TU and as two TUs that both include the headers; every client TU stores the address of
+    every function (extern prototypes AND static inline definitions) that the included headers
+    themselves declare into a volatile table (externs pull the library member in, inlines get
+    their body instantiated) and runs a small per-header "use" snippet (clients/use_<h>.c);
+  * an address-of-everything client over all headers, also built with ASan+UBSan;
+  * nm cross-checks of libcstl.a / libcstl.so against the declared list and of every client
+    object against "defines a global symbol it should not".
+"""
+import itertools
+import os
+import random
+import re
+import shutil
+import signal
+import subprocess
+import sys
+import tempfile
+import time
+from concurrent.futures import ThreadPoolExecutor
+
+VERIF = os.path.dirname(os.path.dirname(os.path.abspath(__file__)))
+TPL = os.path.join(VERIF, 'clients')
+WORKERS = 16
+CLIENT_CFLAGS = ['-Wall', '-Wextra', '-std=c99', '-pedantic', '-D_POSIX_C_SOURCE=199309L']
+SAN = ['-g', '-fsanitize=address,undefined', '-fno-sanitize=nonnull-attribute',
+       '-fno-sanitize-recover=all', '-fno-omit-frame-pointer']
+EXCLUDED_HEADERS = ('_string.h',)       # guard-less template instantiated by string.h
+TIMEOUT_RC = -999
+N_TRIPLES = 200
+OWN_GLOBALS = ('main', 'c18_tu2')
+SAN_SYM = re.compile(r'(__odr_asan|__asan|__ubsan|__sanitizer|__lsan|_GLOBAL__)')   # instrumentation artefacts in -fsanitize objects
+INFRA_PAT = re.compile(r'internal compiler error|No space left on device|Cannot allocate memory|'
+                       r'cannot execute|Killed signal|out of memory allocating|ld: final link failed: No space')
+
+
+def log(*a):
+    print(*a, file=sys.stderr, flush=True)
+
+
+def base_env():
+    env = dict(os.environ)
+    for k in ('MAKEFLAGS', 'MFLAGS', 'MAKELEVEL', 'ASAN_OPTIONS', 'UBSAN_OPTIONS', 'LSAN_OPTIONS',
+              'LD_BIND_NOW', 'LD_PRELOAD', 'LD_LIBRARY_PATH', 'CFLAGS', 'LDFLAGS', 'CC', 'AR',
+              'C_INCLUDE_PATH', 'CPATH', 'LIBRARY_PATH'):
+        env.pop(k, None)
+    env['LC_ALL'] = 'C'
+    return env
+
+
+def sh(cmd, env=None, cwd=None, timeout=300):
+    """returns (rc, merged output); rc < 0: killed by signal -rc; TIMEOUT_RC: timed out"""
+    try:
+        p = subprocess.run(cmd, stdout=subprocess.PIPE, stderr=subprocess.STDOUT, env=env or base_env(),
+                           cwd=cwd, timeout=timeout, errors='replace', text=True)
+        return p.returncode, p.stdout
+    except subprocess.TimeoutExpired as e:
+        out = e.stdout if isinstance(e.stdout, str) else (e.stdout or b'').decode('utf-8', 'replace')
+        return TIMEOUT_RC, out + '\n[timeout after %ds]' % timeout
+    except OSError as e:
+        return 127, 'cannot execute %s: %s' % (cmd[0], e)
+
+
+def cmdstr(cmd, env_extra=None):
+    pre = ''.join('%s=%s ' % kv for kv in sorted((env_extra or {}).items()))
+    return pre + ' '.join(cmd)
+
+
+def hname(h):
+    return h[:-2] if h.endswith('.h') else h
+
+
+def hjoin(headers):
+    return '+'.join(hname(h) for h in headers)
+
+
+# --------------------------------------------------------------------------- project build
+
+def build_project(repo, scratch, verbose=False):
+    """copy Makefile, src, include, benches -> scratch; make build.  returns (ok, message)"""
+    for d in ('src', 'include', 'benches'):
+        if os.path.isdir(os.path.join(repo, d)):
+            shutil.copytree(os.path.join(repo, d), os.path.join(scratch, d), symlinks=False)
+    for need in ('Makefile', 'src', 'include'):
+        if not os.path.exists(os.path.join(repo, need)):
+            return False, 'working tree %s has no %s: cannot run the project build' % (repo, need)
+    shutil.copy2(os.path.join(repo, 'Makefile'), os.path.join(scratch, 'Makefile'))
+    os.makedirs(os.path.join(scratch, 'build', 'test'), exist_ok=True)
+    os.makedirs(os.path.join(scratch, 'build', 'benches'), exist_ok=True)
+    cmd = ['make', '-j%d' % WORKERS, 'build']
+    rc, out = sh(cmd, cwd=scratch, timeout=600)
+    if verbose:
+        log('$ (cd %s && %s)  -> rc %d' % (scratch, ' '.join(cmd), rc))
+    a = os.path.join(scratch, 'build', 'libcstl.a')
+    so = os.path.join(scratch, 'build', 'libcstl.so')
+    if rc != 0 or not os.path.exists(a) or not os.path.exists(so):
+        why = 'project `make build` failed in a scratch copy of %s (rc %d)' % (repo, rc)
+        m = re.search(r'^(\S+\.[ch]):\d+:\d+: (?:fatal )?error: .*$', out, re.M)
+        if m:
+            why += '; first compiler error: ' + m.group(0).replace(scratch + '/', '')
+        m2 = re.search(r"No rule to make target '([^']+)'", out)
+        if m2:
+            why += '; a source the Makefile needs is missing: ' + m2.group(1)
+        tail = ' | '.join(l.strip() for l in out.replace(scratch + '/', '').splitlines() if re.search(r'error|\*\*\*', l))[:600]
+        return False, why + ' [' + tail + ']'
+    return True, ''
+
+
+def list_headers(scratch):
+    d = os.path.join(scratch, 'include', 'cstl')
+    if not os.path.isdir(d):
+        return []
+    return sorted(f for f in os.listdir(d) if f.endswith('.h') and f not in EXCLUDED_HEADERS)
+
+
+# --------------------------------------------------------------------------- aux-info
+
+AUX_LINE = re.compile(r'^/\* (.+?):(\d+):([NOI])([CF]) \*/ (.*)$')
+FN_NAME = re.compile(r'\b((?:__)?cstl_\w+) \((?!\*)')
+ANY_NAME = re.compile(r'\b([A-Za-z_]\w*) \((?!\*)')
+
+
+def parse_aux(path, incdir):
+    """-> list of dicts {name, file, line, defined, storage}; only files under incdir/cstl"""
+    out = []
+    other = 0
+    pre = os.path.join(os.path.realpath(incdir), 'cstl') + os.sep
+    try:
+        text = open(path, errors='replace').read()
+    except OSError:
+        return out, other
+    for line in text.splitlines():
+        m = AUX_LINE.match(line)
+        if not m:
+            continue
+        f = os.path.realpath(m.group(1))
+        if not f.startswith(pre):
+            continue
+        decl = re.sub(r'/\*.*?\*/', '', m.group(5)).strip()
+        storage = 'static' if re.match(r'static\b', decl) else 'extern'
+        n = FN_NAME.search(decl)
+        if not n:
+            other += 1
+            continue
+        out.append({'name': n.group(1), 'file': os.path.basename(f), 'line': int(m.group(2)),
+                    'defined': m.group(4) == 'F', 'storage': storage})
+    return out, other
+
+
+# --------------------------------------------------------------------------- source generation
+
+def load_snippets():
+    """-> {header: (needs, text)} from clients/use_<header>.c"""
+    sn = {}
+    if not os.path.isdir(TPL):
+        return sn
+    for f in sorted(os.listdir(TPL)):
+        m = re.match(r'use_(\w+)\.c$', f)
+        if not m:
+            continue
+        text = open(os.path.join(TPL, f)).read()
+        nm = re.match(r'\s*/\*\s*needs:\s*(.*?)\*/', text, re.S)
+        needs = nm.group(1).split() if nm else []
+        sn[m.group(1) + '.h'] = (needs, text)
+    return sn
+
+
+def gen_source(headers, role, table_funcs, use_headers, snippets, declared):
+    """headers: include order; table_funcs: function names whose address is stored;
+    use_headers: headers whose use-snippet is pasted (if its needs are all declared)"""
+    L = ['/* generated by verif C18 (lib/clients.py); role=%s; includes in this order: %s */'
+         % (role, ' '.join(headers))]
+    for h in headers:
+        L.append('#include "cstl/%s"' % h)
+    L.append('/* nothing but the cstl headers above this line */')
+    L.append('#include <stddef.h>')
+    L.append('#include <stdlib.h>')
+    if role == 'addr':
+        L.append('#include <stdio.h>')
+    L.append('')
+    L.append('typedef void (*c18_fn_t)(void);')
+    L.append('static volatile c18_fn_t c18_table[] = {')
+    for n in table_funcs:
+        L.append('    (c18_fn_t)%s,' % n)
+    L.append('    (c18_fn_t)0')
+    L.append('};')
+    L.append('')
+    used = []
+    skipped = 0
+    for h in use_headers:
+        if h not in snippets:
+            continue
+        needs, text = snippets[h]
+        if all(n in declared for n in needs):
+            L.append(text.rstrip())
+            L.append('')
+            used.append(h)
+        else:
+            skipped += 1
+    L.append('static int c18_body(void)')
+    L.append('{')
+    L.append('    unsigned n = 0;')
+    L.append('    size_t i;')
+    L.append('    for (i = 0; i < sizeof(c18_table) / sizeof(c18_table[0]); i++) {')
+    L.append('        if (c18_table[i] != (c18_fn_t)0) {')
+    L.append('            n++;')
+    L.append('        }')
+    L.append('    }')
+    L.append('    if (n != %du) {' % len(table_funcs))
+    L.append('        return 90;')
+    L.append('    }')
+    if role == 'addr':
+        L.append('    printf("c18: %u function addresses stored\\n", n);')
+    for idx, h in enumerate(used):
+        L.append('    if (c18_use_%s() != 0) {' % hname(h))
+        L.append('        return %d;' % (100 + idx))
+        L.append('    }')
+    L.append('    return 0;')
+    L.append('}')
+    L.append('')
+    if role in ('main1', 'addr'):
+        L += ['int main(void)', '{', '    return c18_body();', '}']
+    elif role == 'main2':
+        L += ['int c18_tu2(void);', '', 'int main(void)', '{', '    const int r = c18_body();',
+              '    if (r != 0) {', '        return r;', '    }', '    return c18_tu2();', '}']
+    else:
+        L += ['int c18_tu2(void);', '', 'int c18_tu2(void)', '{', '    const int r = c18_body();',
+              '    return (r != 0) ? (r + 128) : 0;', '}']
+    return '\n'.join(L) + '\n', skipped
+
+
+# --------------------------------------------------------------------------- the pipeline
+
+class Pipeline:
+    def __init__(self, tier, seed, repo, broot, only=None, verbose=False):
+        self.tier, self.seed, self.repo, self.broot = tier, seed, repo, broot
+        self.only, self.verbose = only, verbose
+        self.scratch = None
+        self.counters = {'warnings': 0}
+        self.violations = []
+        self.vkeys = set()
+        self.infra = []
+        self.explained = {}
+        self.samples = []
+        self.configs = []
+        self.objects = {}
+        self.obj_cfg = {}
+        self.dirs = {}
+        self.done_distinct = set()
+        self.done_tuples = set()
+        self.ncases = self.cases_done = self.cases_failed = 0
+        self.lib_ok = False
+
+    # ---- small helpers
+    def count(self, k, n=1):
+        self.counters[k] = self.counters.get(k, 0) + n
+
+    def vlog(self, cmd, rc, out):
+        if self.verbose:
+            log('$ ' + cmd)
+            if out.strip():
+                log(out.rstrip())
+            log('  -> %s' % self.rcstr(rc))
+
+    @staticmethod
+    def rcstr(rc):
+        if rc == TIMEOUT_RC:
+            return 'timeout'
+        if rc < 0:
+            try:
+                return 'signal %s' % signal.Signals(-rc).name
+            except ValueError:
+                return 'signal %d' % -rc
+        return 'exit %d' % rc
+
+    def scrub(self, s):
+        """paths out of messages (scratch dir name is random)"""
+        s = s.replace(self.scratch + '/', '<project>/') if self.scratch else s
+        return s.replace(self.broot + '/', '<build>/')
+
+    def violate(self, key, msg, case, trace, diag, extra, cls=None, hs=None):
+        """record a violation; cls/hs: suppress when a strictly smaller header set already failed
+        in the same class (the smaller configuration is the witness)"""
+        if cls is not None and hs is not None and self.only is None:
+            s = frozenset(hs)
+            prior = self.explained.setdefault(cls, [])
+            hit = any(f < s for f in prior)
+            prior.append(s)
+            if hit:
+                self.count('failures-explained-by-smaller-configuration')
+                return
+        if key in self.vkeys:
+            self.count('violations-same-key-suppressed')
+            return
+        self.vkeys.add(key)
+        self.violations.append({'key': key, 'msg': self.scrub(msg), 'case': case, 'op': 0,
+                                'note': extra.get('desc', ''), 'trace': self.scrub(trace),
+                                'stderr': self.scrub(diag)[:2000], 'extra': extra})
+
+    def is_infra(self, rc, out):
+        # compiler/link editor killed, timed out or out of resources: not a statement about the headers
+        return bool(rc < 0 or INFRA_PAT.search(out or ''))
+
+    # ---- stage: bare includes + aux-info
+    def stage_bare(self):
+        """compile `#include "cstl/x.h"` alone (per header) and all together with -aux-info"""
+        inc = os.path.join(self.scratch, 'include')
+        d = os.path.join(self.broot, 'bare')
+        os.makedirs(d, exist_ok=True)
+        jobs = []
+        for h in self.headers:
+            jobs.append((hname(h), (h,)))
+        jobs.append(('all', tuple(self.headers)))
+
+        def one(job):
+            nm, hs = job
+            src = os.path.join(d, nm + '.c')
+            with open(src, 'w') as f:
+                f.write('/* verif C18: bare include test */\n' + ''.join('#include "cstl/%s"\n' % h for h in hs))
+            res = {}
+            for opt in self.opts:
+                obj = os.path.join(d, '%s%s.o' % (nm, opt))
+                cmd = ['gcc'] + CLIENT_CFLAGS + [opt, '-I' + inc]
+                if opt == self.opts[0]:
+                    cmd += ['-aux-info', os.path.join(d, nm + '.X')]
+                cmd += ['-c', src, '-o', obj]
+                rc, out = sh(cmd)
+                res[opt] = (cmd, rc, out, obj)
+            return nm, hs, res
+        with ThreadPoolExecutor(max_workers=WORKERS) as ex:
+            results = list(ex.map(one, jobs))
+
+        self.bare_objs = []
+        funcs = {}          # name -> record (merged)
+        own = {}            # header -> ordered list of names
+        pub = set(self.headers)
+        aux_by = {}
+        for nm, hs, res in results:
+            for opt in self.opts:
+                cmd, rc, out, obj = res[opt]
+                self.vlog(' '.join(cmd), rc, out)
+                self.note_warnings(out)
+                if rc == 0:
+                    self.count('objects.compiled')
+                    self.bare_objs.append((obj, {'client': 'bare', 'desc': 'bare include of %s, %s' % (nm, opt)}))
+                elif self.is_infra(rc, out):
+                    self.infra.append('compiler failure (not a diagnostic) on bare include of %s: %s'
+                                      % (nm, out[-300:]))
+                else:
+                    self.count('objects.compile-failed')
+                    kind = 'alone' if len(hs) == 1 else 'all'
+                    key = 'compile.error.%s.alone' % hname(hs[0]) if kind == 'alone' else 'compile.error.all'
+                    self.violate(key, 'a translation unit consisting only of %s does not compile (%s)'
+                                 % (' '.join('#include "cstl/%s"' % h for h in hs), self.first_error(out)),
+                                 -1, ' '.join(cmd), out,
+                                 {'client': 'bare', 'kind': kind, 'headers': list(hs), 'opt': opt,
+                                  'desc': 'bare include: ' + hjoin(hs)}, cls='compile', hs=hs)
+            recs, other = parse_aux(os.path.join(d, nm + '.X'), inc) if res[self.opts[0]][1] == 0 else ([], 0)
+            aux_by[nm] = recs
+            if nm == 'all':
+                self.count('declared-names-without-cstl-prefix', other)
+            for r in recs:
+                o = funcs.get(r['name'])
+                if o is None:
+                    funcs[r['name']] = dict(r)
+                else:
+                    o['defined'] = o['defined'] or r['defined']
+                    if r['storage'] == 'static':
+                        o['storage'] = 'static'
+        # ownership: functions a header brings itself (its own file, or a non-public file such as _string.h)
+        for h in self.headers:
+            recs = aux_by.get(hname(h)) or []
+            names = []
+            if recs:
+                for r in recs:
+                    if (r['file'] == h or r['file'] not in pub) and r['name'] not in names:
+                        names.append(r['name'])
+            else:   # header does not compile alone: fall back to the all-headers list
+                try:
+                    text = open(os.path.join(inc, 'cstl', h), errors='replace').read()
+                except OSError:
+                    text = ''
+                sub = set(x for x in re.findall(r'#\s*include\s*"cstl/([^"]+)"', text) if x not in pub)
+                for r in aux_by.get('all') or []:
+                    if (r['file'] == h or r['file'] in sub) and r['name'] not in names:
+                        names.append(r['name'])
+            own[h] = names
+        self.funcs, self.own = funcs, own
+        self.all_funcs = []
+        src_recs = aux_by.get('all') or [r for h in self.headers for r in (aux_by.get(hname(h)) or [])]
+        for r in src_recs:
+            if r['name'] not in self.all_funcs:
+                self.all_funcs.append(r['name'])
+        self.extern_decl = [n for n in self.all_funcs if funcs[n]['storage'] == 'extern' and not funcs[n]['defined']]
+        self.inline_def = [n for n in self.all_funcs if funcs[n]['storage'] == 'static' and funcs[n]['defined']]
+        self.extern_def = [n for n in self.all_funcs if funcs[n]['storage'] == 'extern' and funcs[n]['defined']]
+        for n in self.extern_def:
+            f = funcs[n]
+            self.violate('decl.non-static-definition-in-header.%s' % n,
+                         'the compiler reports a non-static function DEFINITION of %s at %s:%d (gcc -aux-info: "extern", '
+                         'definition): every TU including the header emits it (plain definition) or depends on an '
+                         'external definition nobody provides (C99 inline without static)' % (n, f['file'], f['line']),
+                         -1, 'gcc %s -I<project>/include -aux-info bare/<header>.X -c bare/<header>.c' % ' '.join(CLIENT_CFLAGS),
+                         '%s:%d: %s %s (defined in header)' % (f['file'], f['line'], f['storage'], n),
+                         {'client': 'bare', 'check': 'non-static-definition', 'symbol': n,
+                          'desc': 'declaration list of the bare includes'})
+        self.count('headers', len(self.headers))
+        self.count('declared-functions', len(self.all_funcs))
+        self.count('declared-extern-functions', len(self.extern_decl))
+        self.count('declared-inline-functions', len(self.inline_def))
+        self.count('declared-external-definitions-in-headers', len(self.extern_def))
+
+    def note_warnings(self, out):
+        for m in re.finditer(r'warning: .*?(?:\[(-W[^\]]+)\])?$', out or '', re.M):
+            self.count('warnings')
+            if m.group(1):
+                self.count('warning.' + m.group(1))
+
+    @staticmethod
+    def first_error(out):
+        m = re.search(r'^.*\berror: .*$', out or '', re.M)
+        if m:
+            s = m.group(0)
+            s = re.sub(r'^\S*?([^/\s]+\.[ch]):(\d+):\d+:', r'\1:\2:', s)
+            return s.strip()[:200]
+        return ((out or '').strip().splitlines() or ['no diagnostic'])[0][:200]
+
+    # ---- configuration enumeration
+    def enumerate(self):
+        H = self.headers
+        rng = random.Random((self.seed * 1000003) ^ 0xC18)
+        combos = []
+        if self.only is not None:
+            o = self.only
+            if o.get('client') == 'combo':
+                self.add_configs(o['kind'], tuple(o['headers']), [o['opt']], [o['ntu']], [o['mode']],
+                                 [o.get('order', 'mt')])
+            elif o.get('client') == 'addr':
+                self.add_addr([o['opt']], [bool(o.get('san'))], [o['mode']])
+            return
+        for h in H:
+            combos.append(('alone', (h,)))
+        for a, b in itertools.permutations(H, 2):
+            combos.append(('pair', (a, b)))
+        if len(H) >= 3 and self.tier == 'thorough':
+            trip = list(itertools.permutations(H, 3))
+            for t in rng.sample(trip, min(N_TRIPLES, len(trip))):
+                combos.append(('triple', t))
+        orders = [tuple(H), tuple(reversed(H))]
+        tries = 0
+        want = 5 if self.tier == 'quick' else 8
+        while len(orders) < want and tries < 50 and len(H) > 2:
+            p = list(H)
+            rng.shuffle(p)
+            tries += 1
+            if tuple(p) not in orders:
+                orders.append(tuple(p))
+        seen = set()
+        for o in orders:
+            if o not in seen:
+                seen.add(o)
+                combos.append(('all', o))
+        tu_orders = ['mt'] if self.tier == 'quick' else ['mt', 'tm']
+        for kind, hs in combos:
+            self.add_configs(kind, hs, self.opts, [1, 2], ['static', 'shared'], tu_orders)
+        self.add_addr(self.opts, [False, True], ['static', 'shared'])
+
+    def obj_for(self, kind, hs, role, opt, san=False):
+        key = (hs, role, opt, san)
+        o = self.objects.get(key)
+        if o is None:
+            dk = (kind, hs)
+            if dk not in self.dirs:
+                self.dirs[dk] = os.path.join(self.broot, 'c', '%04d-%s' % (len(self.dirs), kind))
+            d = self.dirs[dk]
+            o = {'key': key, 'kind': kind, 'headers': hs, 'role': role, 'opt': opt, 'san': san,
+                 'src': os.path.join(d, role + '.c'), 'obj': os.path.join(d, '%s%s%s.o' % (role, opt, '-san' if san else '')),
+                 'dir': d, 'rc': None, 'out': '', 'cmd': None}
+            self.objects[key] = o
+        return o
+
+    def add_configs(self, kind, hs, opts, ntus, modes, tu_orders):
+        for opt in opts:
+            for ntu in ntus:
+                roles = ['main1'] if ntu == 1 else ['main2', 'tu2']
+                objs = [self.obj_for(kind, hs, r, opt) for r in roles]
+                for mode in modes:
+                    for order in (tu_orders if ntu == 2 else ['m']):
+                        self.configs.append({
+                            'idx': len(self.configs), 'client': 'combo', 'kind': kind, 'headers': hs,
+                            'ntu': ntu, 'mode': mode, 'opt': opt, 'order': order, 'san': False,
+                            'objs': objs if order != 'tm' else list(reversed(objs)),
+                            'name': ('all.%dtu.%s' % (ntu, mode)) if kind == 'all'
+                                    else '%s.%s.%dtu.%s' % (hjoin(hs), kind, ntu, mode)})
+                        for o in objs:
+                            self.obj_cfg.setdefault(o['key'], self.configs[-1])
+                        self.count('config.%s.%dtu.%s' % (kind, ntu, mode))
+
+    def add_addr(self, opts, sans, modes):
+        hs = tuple(self.headers)
+        for opt in opts:
+            for san in sans:
+                o = self.obj_for('addr', hs, 'addr', opt, san)
+                for mode in modes:
+                    self.configs.append({
+                        'idx': len(self.configs), 'client': 'addr', 'kind': 'addr', 'headers': hs, 'ntu': 1,
+                        'mode': mode, 'opt': opt, 'order': 'm', 'san': san, 'objs': [o],
+                        'name': 'addr-of-everything.%s%s' % (mode, '.asan-ubsan' if san else '')})
+                    self.obj_cfg.setdefault(o['key'], self.configs[-1])
+                    self.count('config.addr.1tu.%s%s' % (mode, '.asan-ubsan' if san else ''))
+
+    def cfg_desc(self, c):
+        return ('%s client, headers in order [%s], %d TU%s%s, %s link, %s%s'
+                % (c['kind'], ' '.join(c['headers']), c['ntu'], '' if c['ntu'] == 1 else 's',
+                   ' (second TU first on the link line)' if c['order'] == 'tm' else '', c['mode'], c['opt'],
+                   ', ASan+UBSan' if c['san'] else ''))
+
+    def cfg_extra(self, c, stage):
+        return {'client': c['client'], 'kind': c['kind'], 'headers': list(c['headers']), 'ntu': c['ntu'],
+                'mode': c['mode'], 'opt': c['opt'], 'order': c['order'], 'san': c['san'], 'stage': stage,
+                'desc': self.cfg_desc(c)}
+
+    # ---- stage: compile client objects
+    def stage_compile(self):
+        inc = os.path.join(self.scratch, 'include')
+        declared = set(self.all_funcs)
+
+        written = set()
+
+        def prepare(o):
+            os.makedirs(o['dir'], exist_ok=True)
+            if o['role'] == 'addr':
+                table = list(self.all_funcs)
+            else:
+                table = []
+                for h in sorted(set(o['headers'])):
+                    for n in self.own.get(h, []):
+                        if n not in table:
+                            table.append(n)
+            text, skipped = gen_source(list(o['headers']), o['role'], table, sorted(set(o['headers'])),
+                                       self.snippets, declared)
+            o['table'] = table
+            o['skipped'] = skipped
+            if o['src'] not in written:         # one source per (headers, role); shared by the -O/-fsanitize variants
+                written.add(o['src'])
+                with open(o['src'], 'w') as f:
+                    f.write(text)
+
+        def one(o):
+            cmd = ['gcc'] + CLIENT_CFLAGS + [o['opt']] + (SAN if o['san'] else []) + ['-I' + inc, '-c', o['src'], '-o', o['obj']]
+            o['cmd'] = cmd
+            o['rc'], o['out'] = sh(cmd)
+            return o
+        objs = list(self.objects.values())
+        for o in objs:                          # sources are written serially, before any compiler starts
+            prepare(o)
+        with ThreadPoolExecutor(max_workers=WORKERS) as ex:
+            list(ex.map(one, objs))
+        for o in objs:
+            self.vlog(' '.join(o['cmd']), o['rc'], o['out'])
+            self.note_warnings(o['out'])
+            self.count('snippets.skipped', o['skipped'])
+            if o['rc'] == 0:
+                self.count('objects.compiled')
+                continue
+            if self.is_infra(o['rc'], o['out']):
+                self.infra.append('compiler failure (not a diagnostic): %s' % o['out'][-300:])
+                continue
+            self.count('objects.compile-failed')
+            hs, kind = o['headers'], o['kind']
+            if kind == 'all':
+                key = 'compile.error.all'
+            elif kind == 'addr':
+                key = 'compile.error.addr-of-everything'
+            else:
+                key = 'compile.error.%s.%s' % (hjoin(hs), kind)
+            c = self.obj_cfg.get(o['key'])
+            extra = self.cfg_extra(c, 'compile') if c else {'desc': ''}
+            self.violate(key, 'client TU (%s) including [%s] does not compile with the project flags %s: %s'
+                         % (o['role'], ' '.join(hs), o['opt'], self.first_error(o['out'])),
+                         c['idx'] if c else -1, ' '.join(o['cmd']), o['out'], extra, cls='compile', hs=hs)
+
+    # ---- stage: link
+    def stage_link(self):
+        bdir = os.path.join(self.scratch, 'build')
+
+        def one(c):
+            if any(o['rc'] != 0 for o in c['objs']):
+                c['link_rc'] = None
+                return c
+            exe = os.path.join(c['objs'][0]['dir'] if c['order'] != 'tm' else c['objs'][1]['dir'],
+                               'client-%dtu-%s-%s%s%s' % (c['ntu'], c['mode'], c['order'], c['opt'],
+                                                          '-san' if c['san'] else ''))
+            cmd = ['gcc'] + (SAN if c['san'] else []) + ['-o', exe] + [o['obj'] for o in c['objs']]
+            if c['mode'] == 'static':
+                cmd += [os.path.join(bdir, 'libcstl.a'), '-lm']
+            else:
+                cmd += ['-L' + bdir, '-lcstl', '-lm']
+            c['exe'], c['link_cmd'] = exe, cmd
+            c['link_rc'], c['link_out'] = sh(cmd)
+            return c
+        with ThreadPoolExecutor(max_workers=WORKERS) as ex:
+            list(ex.map(one, self.configs))
+        for c in self.configs:
+            if c.get('link_rc') is None:
+                continue
+            self.vlog(' '.join(c['link_cmd']), c['link_rc'], c['link_out'])
+            if c['link_rc'] == 0:
+                self.count('clients.linked')
+                continue
+            out = c['link_out']
+            if self.is_infra(c['link_rc'], out) and 'multiple definition' not in out and 'undefined reference' not in out:
+                self.infra.append('link editor failure (not a diagnostic): %s' % out[-300:])
+                continue
+            self.count('clients.link-failed')
+            trace = '\n'.join([' '.join(o['cmd']) for o in c['objs']] + [' '.join(c['link_cmd'])])
+            dups = []
+            for m in re.finditer(r"multiple definition of [`']([^`']+)'", out):
+                if m.group(1) not in dups:
+                    dups.append(m.group(1))
+            undef = []
+            for m in re.finditer(r"undefined reference to [`']([^`']+)'", out):
+                if m.group(1) not in undef:
+                    undef.append(m.group(1))
+            for s in dups:
+                self.violate('link.duplicate-symbol.%s.%s.%dtu' % (s, c['mode'], c['ntu']),
+                             'duplicate symbol %s linking a %d-TU client including [%s] against the %s library'
+                             % (s, c['ntu'], ' '.join(c['headers']), c['mode']),
+                             c['idx'], trace, out, self.cfg_extra(c, 'link'))
+            for s in undef:
+                self.violate('link.undefined.%s.%s' % (s, c['mode']),
+                             'undefined symbol %s linking a client including [%s] against the %s library'
+                             % (s, ' '.join(c['headers']), c['mode']),
+                             c['idx'], trace, out, self.cfg_extra(c, 'link'))
+            if not dups and not undef:
+                self.violate('link.error.%s' % c['name'],
+                             'client including [%s] does not link against the %s library: %s'
+                             % (' '.join(c['headers']), c['mode'], self.first_error(out)),
+                             c['idx'], trace, out, self.cfg_extra(c, 'link'),
+                             cls=('link', c['ntu'], c['mode'], c['san']), hs=c['headers'])
+
+    # ---- stage: run
+    def stage_run(self):
+        bdir = os.path.join(self.scratch, 'build')
+
+        def one(c):
+            c['runs'] = []
+            if c.get('link_rc') != 0:
+                return c
+            variants = [{}] if c['mode'] == 'static' else [{'LD_LIBRARY_PATH': bdir},
+                                                           {'LD_LIBRARY_PATH': bdir, 'LD_BIND_NOW': '1'}]
+            for ev in variants:
+                env = base_env()
+                env.update(ev)
+                rc, out = sh([c['exe']], env=env, timeout=60)
+                c['runs'].append((ev, rc, out))
+            return c
+        with ThreadPoolExecutor(max_workers=WORKERS) as ex:
+            list(ex.map(one, self.configs))
+        for c in self.configs:
+            ok = bool(c['runs'])
+            for ev, rc, out in c['runs']:
+                self.vlog(cmdstr([c['exe']], ev), rc, out)
+                if rc == 0:
+                    self.count('clients.run')
+                    continue
+                ok = False
+                self.count('clients.run-failed')
+                bn = '.bind-now' if ev.get('LD_BIND_NOW') else ''
+                trace = '\n'.join([' '.join(o['cmd']) for o in c['objs']] + [' '.join(c['link_cmd']),
+                                                                              cmdstr([c['exe']], ev)])
+                extra = self.cfg_extra(c, 'run')
+                extra['bind_now'] = bool(bn)
+                m = re.search(r'undefined symbol: (\w+)', out or '')
+                if m:
+                    self.violate('run.undefined-symbol.%s.%s' % (m.group(1), c['mode']),
+                                 'loader cannot resolve %s starting a client including [%s]' % (m.group(1), ' '.join(c['headers'])),
+                                 c['idx'], trace, out, extra)
+                    continue
+                if rc == TIMEOUT_RC:
+                    what, msg = 'timeout', 'did not finish within 60 s'
+                elif rc < 0:
+                    what, msg = 'crash', 'was killed by ' + self.rcstr(rc)
+                elif 'Sanitizer' in (out or '') or 'runtime error:' in (out or ''):
+                    what, msg = 'sanitizer', 'was stopped by a sanitizer report: ' + self.first_san(out)
+                elif rc == 127 and 'error while loading shared libraries' in (out or ''):
+                    what, msg = 'load-failed', 'could not be loaded: ' + out.strip()[:160]
+                else:
+                    what, msg = 'exit-nonzero', ('returned %d (90: address table incomplete; 100+i / 228+i: use snippet i '
+                                                 'failed in the first / second TU)' % rc)
+                self.violate('run.%s.%s%s' % (what, c['name'], bn),
+                             '%s %s' % (self.cfg_desc(c), msg), c['idx'], trace, out, extra,
+                             cls=('run', what, c['ntu'], c['mode'], c['san'], bn), hs=c['headers'])
+            c['ok'] = ok
+
+    @staticmethod
+    def first_san(out):
+        m = re.search(r'^.*(?:runtime error:|ERROR: \w+Sanitizer:).*$', out or '', re.M)
+        return m.group(0).strip()[:200] if m else ''
+
+    # ---- stage: nm
+    def stage_nm(self):
+        bdir = os.path.join(self.scratch, 'build')
+        lib_defs = {}
+        so_defs = {}
+        if self.lib_ok:
+            a = os.path.join(bdir, 'libcstl.a')
+            so = os.path.join(bdir, 'libcstl.so')
+            cmd_a = ['nm', '-A', '--defined-only', '-g', a]
+            rc, out = sh(cmd_a)
+            self.vlog(' '.join(cmd_a), rc, out if self.verbose and len(out) < 400 else '(%d lines)' % out.count('\n'))
+            if rc != 0:
+                self.infra.append('nm failed on libcstl.a: ' + out[-200:])
+            for line in out.splitlines():
+                p = line.rsplit(None, 2)
+                if len(p) == 3 and len(p[1]) == 1:
+                    member = p[0].split(':')[-2] if p[0].count(':') >= 2 else '?'
+                    lib_defs.setdefault(p[2], []).append((member, p[1]))
+            cmd_so = ['nm', '-D', '--defined-only', so]
+            rc, out2 = sh(cmd_so)
+            self.vlog(' '.join(cmd_so), rc, '(%d lines)' % out2.count('\n'))
+            if rc != 0:
+                self.infra.append('nm failed on libcstl.so: ' + out2[-200:])
+            for line in out2.splitlines():
+                p = line.split()
+                if len(p) >= 3 and len(p[-2]) == 1:
+                    so_defs[p[-1].split('@')[0]] = p[-2]
+            resolved = 0
+            for n in self.extern_decl:
+                f = self.funcs[n]
+                where = '%s:%d' % (f['file'], f['line'])
+                d = [x for x in lib_defs.get(n, []) if x[1] in 'TWi']
+                good = True
+                if not d:
+                    good = False
+                    self.violate('nm.declared-not-defined.%s' % n,
+                                 '%s is declared by %s but no member of libcstl.a defines it' % (n, where),
+                                 -1, ' '.join(cmd_a), 'no T/W entry for %s; entries: %s' % (n, lib_defs.get(n, [])),
+                                 {'client': 'nm', 'check': 'declared-not-defined', 'symbol': n, 'desc': 'nm libcstl.a'})
+                elif len(d) > 1:
+                    good = False
+                    self.violate('nm.defined-more-than-once.%s' % n,
+                                 '%s (declared by %s) is defined by %d members of libcstl.a: %s'
+                                 % (n, where, len(d), ' '.join(x[0] for x in d)), -1, ' '.join(cmd_a), str(d),
+                                 {'client': 'nm', 'check': 'defined-more-than-once', 'symbol': n, 'desc': 'nm libcstl.a'})
+                if so_defs.get(n) not in ('T', 'W', 'i'):
+                    good = False
+                    self.violate('nm.declared-not-exported.%s' % n,
+                                 '%s is declared by %s but libcstl.so does not export a definition' % (n, where),
+                                 -1, ' '.join(cmd_so), 'dynamic symbol table entry for %s: %s' % (n, so_defs.get(n)),
+                                 {'client': 'nm', 'check': 'declared-not-exported', 'symbol': n, 'desc': 'nm -D libcstl.so'})
+                if good:
+                    resolved += 1
+            self.count('extern-functions-resolved', resolved)
+        # client objects
+        objs = list(self.bare_objs)
+        for o in self.objects.values():
+            if o['rc'] == 0:
+                c = self.obj_cfg.get(o['key'])
+                objs.append((o['obj'], self.cfg_extra(c, 'nm') if c else {'client': 'bare', 'desc': ''}))
+        paths = [p for p, _ in objs]
+        chunks = [paths[i:i + 100] for i in range(0, len(paths), 100)]
+
+        def one(ch):
+            return sh(['nm', '-A', '--defined-only'] + ch)
+        with ThreadPoolExecutor(max_workers=WORKERS) as ex:
+            outs = list(ex.map(one, chunks))
+        by_obj = {}
+        for rc, out in outs:
+            if rc != 0:
+                self.infra.append('nm failed on client objects: ' + out[-200:])
+            for line in out.splitlines():
+                p = line.rsplit(None, 2)
+                if len(p) == 3 and len(p[1]) == 1 and ':' in p[0]:
+                    by_obj.setdefault(p[0].split(':')[0], []).append((p[1], p[2]))
+        inst = set()
+        inl = set(self.inline_def)
+        for path, extra in objs:
+            for t, s in by_obj.get(path, []):
+                if t == 't' and s in inl:
+                    inst.add(s)
+                if SAN_SYM.match(s):
+                    continue
+                if t in 'TDBCRSG' and s not in OWN_GLOBALS:
+                    inlib = s in lib_defs
+                    key = ('nm.library-function-defined-in-client.%s' if inlib else 'nm.external-definition-in-client.%s') % s
+                    ex2 = dict(extra)
+                    ex2['check'] = 'client-object-defines'
+                    ex2['symbol'] = s
+                    self.violate(key, 'a client object that only includes cstl headers (%s) defines the global symbol %s '
+                                      '(nm type %s)%s: every TU including the header emits it'
+                                 % (extra.get('desc', ''), s, t, ', which libcstl.a also defines' if inlib else ''),
+                                 -1, 'nm --defined-only ' + path, '%s %s' % (t, s), ex2)
+                elif t in 'WV' and s not in OWN_GLOBALS:
+                    self.count('client-object-weak-definitions')
+        self.count('client-objects-inspected-with-nm', len(paths))
+        self.count('inline-functions-instantiated', len(inst))
+        self.inline_missing = sorted(inl - inst)
+
+    # ---- driver
+    def run(self):
+        t0 = time.time()
+        for tool in ('gcc', 'make', 'nm', 'ar'):
+            if shutil.which(tool) is None:
+                self.infra.append('tool missing: ' + tool)
+        if self.infra:
+            return
+        self.opts = ['-O0'] if self.tier == 'quick' else ['-O0', '-O2']
+        if self.only is not None and self.only.get('opt') in ('-O0', '-O2'):
+            self.opts = [self.only['opt']]
+        self.snippets = load_snippets()
+        self.scratch = tempfile.mkdtemp(prefix='verif-c18-')
+        try:
+            ok, msg = build_project(self.repo, self.scratch, self.verbose)
+            self.lib_ok = ok
+            if not ok:
+                self.infra.append(msg)
+            tb = time.time()
+            self.headers = list_headers(self.scratch)
+            if not self.headers:
+                self.infra.append('no public headers found under include/cstl of ' + self.repo)
+                return
+            os.makedirs(self.broot, exist_ok=True)
+            self.stage_bare()
+            self.enumerate()
+            self.ncases = len(self.configs)
+            self.stage_compile()
+            tc = time.time()
+            if self.lib_ok:
+                self.stage_link()
+                tl = time.time()
+                self.stage_run()
+                tr = time.time()
+            else:
+                tl = tr = tc
+                for c in self.configs:
+                    c['runs'] = []
+            self.stage_nm()
+            for c in self.configs:
+                if c.get('ok'):
+                    self.cases_done += 1
+                    self.done_distinct.add((c['client'], c['headers'], c['ntu'], c['mode'], c['opt'], c['san']))
+                    self.done_tuples.add(c['headers'])
+                elif any(o['rc'] != 0 for o in c['objs']) or c.get('link_rc') not in (None, 0) or c['runs']:
+                    self.cases_failed += 1
+            self.pick_samples()
+            log('[clients.project] make build %.1fs, bare+compile %.1fs (%d objects), link %.1fs, run %.1fs, nm %.1fs; '
+                '%d/%d configurations built+linked+run, %d declared functions (%d extern, %d inline), violations %d'
+                % (tb - t0, tc - tb, len(self.objects), tl - tc, tr - tl, time.time() - tr, self.cases_done,
+                   self.ncases, len(self.all_funcs), len(self.extern_decl), len(self.inline_def), len(self.violations)))
+        finally:
+            shutil.rmtree(self.scratch, ignore_errors=True)
+
+    def pick_samples(self):
+        want = [('alone', 1, 'static'), ('pair', 2, 'shared'), ('all', 2, 'static'), ('addr', 1, 'shared')]
+        for kind, ntu, mode in want:
+            for c in self.configs:
+                if c['kind'] == kind and c['ntu'] == ntu and c['mode'] == mode and c.get('ok'):
+                    cmds = [' '.join(o['cmd']) for o in c['objs']] + [' '.join(c['link_cmd'])] + \
+                           [cmdstr([c['exe']], ev) for ev, _, _ in c['runs']]
+                    self.samples.append(self.scrub('%s: %s' % (self.cfg_desc(c), ' && '.join(cmds))))
+                    break
+
+    def result(self, wall):
+        inconclusive = bool(self.infra)
+        return {
+            'harness': 'clients', 'config': 'project', 'mode': '', 'pipeline': 'clients', 'tag': 'clients.project',
+            'tier': self.tier, 'seed': self.seed, 'workers': WORKERS,
+            'ncases': self.ncases, 'cases_done': self.cases_done, 'cases_failed': self.cases_failed,
+            'worker_deaths': 0, 'wall_s': round(wall, 2),
+            'inconclusive': inconclusive,
+            'inconclusive_msg': self.scrub('; '.join(self.infra))[:3000] if inconclusive else '',
+            'counters': dict(sorted(self.counters.items())),
+            'distinct': {'client-configurations': len(self.done_distinct), 'header-tuples': len(self.done_tuples)},
+            'distinct_nontrivial': len([d for d in self.done_distinct if len(d[1]) >= 1]),
+            'required_missing': [], 'samples': self.samples, 'violations': self.violations,
+        }
+
+
 def run_pipeline(pid, tier, seed, repo, broot):
-    raise NotImplementedError
+    t0 = time.time()
+    p = Pipeline(tier, seed, repo, broot)
+    try:
+        p.run()
+    except Exception as e:                      # a bug here must not look like "held"
+        import traceback
+        p.infra.append('clients pipeline raised %s: %s' % (type(e).__name__, e))
+        log(traceback.format_exc())
+    res = p.result(time.time() - t0)
+    if res['inconclusive']:
+        log('INCONCLUSIVE: clients.project: ' + res['inconclusive_msg'])
+    if getattr(p, 'inline_missing', None):
+        log('[clients.project] inline functions never seen as a local definition in a client object: '
+            + ' '.join(p.inline_missing[:20]))
+    return res
+
+
 def replay(rp, repo, broot):
-    raise NotImplementedError
+    extra = rp.get('extra') or {}
+    key = rp.get('key', '')
+    log('replay C18: key=%s' % key)
+    log('  recorded: %s' % rp.get('msg', ''))
+    log('  configuration: %s' % extra.get('desc', extra))
+    p = Pipeline(rp.get('tier', 'quick'), int(rp.get('seed', 1)), repo, broot, only=extra, verbose=True)
+    try:
+        p.run()
+    except Exception as e:
+        import traceback
+        log(traceback.format_exc())
+        log('replay: pipeline raised %s' % e)
+        return 2
+    finally:
+        shutil.rmtree(broot, ignore_errors=True)
+    if p.infra:
+        log('replay: INCONCLUSIVE: ' + '; '.join(p.infra)[:2000])
+    same = [v for v in p.violations if v['key'] == key]
+    for v in p.violations:
+        log('%s key=%s: %s' % ('STILL FAILS' if v['key'] == key else 'also observed', v['key'], v['msg']))
+        if v['key'] == key:
+            log(v['stderr'])
+    if same:
+        return 1
+    if p.infra:
+        return 2
+    log('replay: the configuration builds, links and runs; key %s not reproduced' % key)
+    return 0
